@@ -41,7 +41,7 @@ def ncf2wind(ncffile, outpath, tflag='TFLAG'):
         if lstag == lstag:
             # the reader sets LSTAGGER to nan when the time header has no
             # stagger flag (hour, idate only)
-            hdr += lstag.tobytes()
+            hdr += np.array(lstag).astype('>i').tobytes()
         buf = np.array([len(hdr)], dtype='>i').tobytes()
         outfile.write(buf + hdr + buf)
         for zi in range(nzcl):
